@@ -86,16 +86,27 @@ def extract_wiring_region(ctx):
     wrapped into a function of package control that takes a real *controlPlaneCore."""
     path = os.path.join(REPO, "control", "control_plane.go")
     src = open(path, encoding="utf-8").read()
-    start_pat = "\t// Dial mode.\n"
-    a = src.find(start_pat)
-    if a < 0 or src.find(start_pat, a + 1) >= 0:
-        return None, "start marker `// Dial mode.` not found exactly once"
-    m = re.compile(r"for\s+_,\s*group\s*:=\s*range\s+groups\s*\{").search(src, a)
+    # anchor on the statement, not on a comment: the line that parses the dial mode (the comment above it, if any, is taken along)
+    pm = re.search(r"^[ \t]*\w+\s*,\s*err\s*:?=\s*consts\.ParseDialMode\(", src, re.M)
+    if not pm or re.search(r"consts\.ParseDialMode\(", src[pm.end():]):
+        return None, "the statement `…, err := consts.ParseDialMode(` was not found exactly once"
+    a = pm.start()
+    prev = src.rfind("\n", 0, a - 1) + 1
+    if src[prev:a].strip().startswith("//"):
+        a = prev
+    m = re.compile(r"for\s+\w+(?:\s*,\s*\w+)?\s*:=\s*range\s+groups\s*\{").search(src, a)
     if not m or m.start() - a > 6000:
         return None, "loop `for _, group := range groups {` not found after the dial-mode block"
     b = _scan_block_end(src, m.end() - 1)
     if b < 0:
         return None, "could not find the end of the group loop"
+    # the registration loop right after the group loop (one alive-transition callback per dialer)
+    has_reg = False
+    mr = re.compile(r"\s*\w+\s*:=\s*make\(map\[\*dialer\.Dialer\]struct\{\}\)\s*\n\s*for\s+\w+\s*,\s*\w+\s*:=\s*range\s+outbounds\s*\{").match(src, b)
+    if mr:
+        b2 = _scan_block_end(src, mr.end() - 1)
+        if b2 > 0 and "RegisterAliveTransitionCallback" in src[b:b2]:
+            b, has_reg = b2, True
     region = src[a:b]
     for needed in ("disableKernelAliveCallback", "core.outboundAliveChangeCallback(", "outbounds"):
         if needed not in region:
@@ -127,18 +138,20 @@ type c16Wiring struct {
 	Dryrun     bool
 }
 
+const c16WiringHasRegistration = %s
+
 func c16RealWiring(core *controlPlaneCore, option *dialer.GlobalOption, global *config.Global, tagToNodeList map[string][]string, groups []config.Group, log *logrus.Logger) (res *c16Wiring, err error) {
 	var deferFuncs []func() error
 	// ---------------------------------------------------------------- verbatim from control_plane.go
-""")
+""" % ("true" if has_reg else "false"))
         f.write(region)
         f.write("""
 	// ---------------------------------------------------------------- end of verbatim region
-	_ = sniffingTimeout
-	return &c16Wiring{Outbounds: outbounds, DeferFuncs: deferFuncs, Dryrun: disableKernelAliveCallback}, nil
+%s	return &c16Wiring{Outbounds: outbounds, DeferFuncs: deferFuncs, Dryrun: disableKernelAliveCallback}, nil
 }
-""")
-    return gen, "bytes %d..%d of control_plane.go (%d lines)" % (a, b, region.count("\n") + 1)
+""" % ("\t_ = sniffingTimeout\n" if re.search(r"\bsniffingTimeout\s*:?=", region) else ""))
+    return gen, "bytes %d..%d of control_plane.go (%d lines%s)" % (
+        a, b, region.count("\n") + 1, ", incl. the alive-transition registration loop" if has_reg else ", registration loop NOT found")
 
 
 def main_canon(line):
@@ -171,7 +184,17 @@ def main_canon(line):
             m = re.match(r"(\d+\.\d+[ai])\[([^\]]*)\]m=([^:]*):", x)
             ents = sorted(int(e.split(":")[0]) for e in m.group(2).split(",") if e)
             ss.append(f"{m.group(1)}{ents}{'-' if m.group(3) == '-' else '+'}")
-    return f"N[{';'.join(ns)}] T[{tstr}] G[{f['G']}] S[{';'.join(ss)}] K[{f['K']}] P[{f['P']}]"
+    g = f["G"]
+    if "i" in g:
+        # group construction: only the value each set's callback ended on (how many callbacks the constructor
+        # fires before the six init callbacks is not the property's business)
+        last = {}
+        for x in g.split(","):
+            if x:
+                k, v = x.split("=")
+                last[k] = v[0]
+        g = ",".join(f"{k}={v}" for k, v in sorted(last.items(), key=lambda kv: [int(t) for t in kv[0].split(".")]))
+    return f"N[{';'.join(ns)}] T[{tstr}] G[{g}] S[{';'.join(ss)}] K[{f['K']}] P[{f['P']}]"
 
 
 def kernel_canon(line):
@@ -221,15 +244,36 @@ def reload_oracle(kop_lines, kimpl_lines, report, max_reports=3):
                     parts = tok.split("/")
                     ms = [] if parts[-1] == "-" else [tuple(x.split(":")) for x in parts[-1].split(",")]
                     if parts[0] == "o":
-                        olds[parts[1]] = {nm for _, nm in ms}
+                        olds[parts[1]] = ms          # Go map: the last old group of a name wins
                     else:
                         news.append((parts[2], ms))
-                matched, allnew = set(), set()
+                matched, allnew, ngroups = set(), set(), {}
                 for gname, ms in news:
-                    for nid, nm in ms:
+                    for nid, nm, lk in ms:
                         allnew.add(nid)
-                        if gname in olds and nm in olds[gname]:
+                        ngroups[nid] = ngroups.get(nid, 0) + 1
+                        if gname in olds and any(onm == nm for _, onm, _ in olds[gname]):
                             matched.add(nid)
+                # same-named members of one group: a node whose (name, link) identifies exactly one old member of
+                # its (only) group's namesake must keep every alive flag that old member had (floors only add)
+                for gname, ms in news:
+                    for nid, nm, lk in ms:
+                        if ngroups[nid] != 1 or gname not in olds:
+                            continue
+                        src = [oid for oid, onm, olk in olds[gname] if onm == nm and olk == lk]
+                        twins = [1 for _, nnm, nlk in ms if nnm == nm and nlk == lk]
+                        if len(src) != 1 or len(twins) != 1 or src[0] not in before or nid not in after:
+                            continue
+                        n_checked += 1
+                        ob, na = before[src[0]], after[nid]
+                        if any(b == "1" and a == "0" for b, a in zip(ob, na)):
+                            if n_rep < max_reports:
+                                report(f"implementation violates `a reload hands the last known state to the new generation` at line "
+                                       f"{i + 1}: node {nid} (name {nm}, link {lk}) is the successor of old node {src[0]} whose flags were "
+                                       f"{ob}, but came out of ControlPlane.InheritDialerHealthFrom as {na} — it inherited a same-named "
+                                       f"sibling's state",
+                                       {"clause": "hand-over same-named members", "line": i + 1, "op": op, "impl": im})
+                            n_rep += 1
                 for nid in sorted(allnew - matched, key=int):
                     n_checked += 1
                     if nid in before and nid in after and any(b == "1" and a == "0" for b, a in zip(before[nid], after[nid])):
@@ -371,13 +415,16 @@ def run(ctx):
     ctx.trusted += [
         "latency values a set reads from a node (snapshotLatencyForPolicy: LatenciesN, moving average, back-off penalty) "
         "are inputs of the model (oracle), read back from the real set after each event; theorems hold for all values",
-        "single-threaded event semantics: the harness serialises events; interleavings of concurrent reports/probes are not modelled",
+        "the main stream serialises events; concurrency is covered separately: a Lean interleaving model of concurrent reports on one "
+        "node and one set (Props.concurrent_reports_agree_at_quiescence, on RState, not on World/step) and a stress probe of the real "
+        "code (stream c16r, probabilistic detector); scheduling of aliveBackground, the ants pool and timers are not modelled",
         "classification of concrete Go errors into ignorable/counted is tied only on the harness's error pool",
         "testing/synctest virtual clock stands for the wall clock (suppression window, failure TTL)",
         "the latency oracle is circular by construction: the value handed to the model is what the real set recorded "
         "(dialerToLatency); a set reading the wrong statistic/collection is invisible here (C15's subject)",
-        "the kernel bit is tied per (outbound, type) slot for ONE generation; two generations sharing outbound ids on one map "
-        "are covered only through the closure guards (closed/retired/dryrun: tied + Props.kernel_callback_guards)",
+        "kernel map: two generations sharing outbound ids on one real map with the real MarkRetired are tied (stream c16k) and modelled "
+        "(KWorld); the theorem relating a slot to the emptiness of the newest live group's set across steps is _partial; a generation "
+        "that is built and then abandoned (aborted reload) is the open finding c16-aborted-reload-leaves-init-bits",
         "compared state is projected (main_canon): dead-slot counters, NetworkType variant and cross-slot order of callbacks, "
         "slice order / sorting latency / identity of the best node are NOT compared (outside C16; C15 covers selection)",
     ]
@@ -447,7 +494,10 @@ def run(ctx):
                 "- the dial-mode/group-wiring region of NewControlPlane can no longer be located; adapt extract_wiring_region")
         return 2
     kbin = ctx.go_test_build("control", ["control/c16_test.go"], "c16k",
-                             extra_overlay={os.path.join(REPO, "control", "zz_verif_c16_wiring.go"): wgen})
+                             extra_overlay={os.path.join(REPO, "control", "zz_verif_c16_wiring.go"): wgen,
+                                            os.path.join(REPO, "component", "outbound", "dialer", "zz_verif_c16_shim.go"):
+                                                os.path.join(os.path.dirname(os.path.dirname(os.path.abspath(__file__))),
+                                                             "harness", "overlay", "component", "outbound", "dialer", "c16_shim.go")})
     if not kbin:
         return 2
     rc, out = ctx.run_harness(kbin, "TestVerifC16Kernel")
@@ -457,8 +507,9 @@ def run(ctx):
         return 2
     kop_lines = read_lines(kops)
     if kop_lines and kop_lines[0] == "nobpf":
-        ctx.assumptions.append("bpf(2) unavailable in this sandbox: the kernel-map half of the tie was SKIPPED")
-        ctx.cov["kernel_side"] = "skipped: bpf unavailable"
+        ctx.say("CAPABILITY-MISSING: ebpf.NewMap failed (bpf(2) not permitted / memlock): the kernel-map streams of C16 need a real "
+                "BPF array map; this is an environment problem, not a verdict about the code")
+        return 2
     else:
         if not ctx.driver("c16drv", kops, kmodel):
             ctx.proof_failures.append("model driver c16drv failed to run (kernel stream)")
@@ -478,8 +529,38 @@ def run(ctx):
         if rc != 0 or not os.path.exists(wops):
             ctx.say("HARNESS-FAILED (wiring region)", out[-3000:])
             return 2
+        if read_lines(wops)[:1] == ["nobpf"]:
+            ctx.say("CAPABILITY-MISSING: ebpf.NewMap failed in the wiring test (bpf(2) not permitted / memlock): environment problem, "
+                    "not a verdict about the code")
+            return 2
         if not ctx.driver("c16drv", wops, wmodel):
             ctx.proof_failures.append("model driver c16drv failed to run (wiring stream)")
+        wj = json.load(open(os.path.join(ctx.out, "c16w.json"))) if os.path.exists(os.path.join(ctx.out, "c16w.json")) else {}
+        ctx.cov["wiring_registration"] = wj
+        if wj.get("bad"):
+            ctx.report(f"implementation violates `alive-state callbacks fire exactly once per actual transition`: NewControlPlane's "
+                       f"registration loop left {wj['bad']} of {wj['dialers']} dialers with a number of alive-transition callbacks "
+                       f"other than one ({wj.get('detail')})", {"clause": "transition callback registration", "result": wj})
+        if not wj.get("registration_executed"):
+            ctx.say("NOTE: the alive-transition registration loop after NewControlPlane's group loop was not found by the extractor; "
+                    "it is not executed in this run")
+        # ---- directed witness of the OPEN finding: an aborted reload's init writes stay in the shared map
+        rc, out = ctx.run_harness(kbin, "TestVerifC16AbortedReload")
+        g2p = os.path.join(ctx.out, "c16g2.json")
+        g2 = json.load(open(g2p)) if os.path.exists(g2p) else {}
+        ctx.cov["aborted_reload_witness"] = g2
+        if rc != 0 or not g2.get("bpf"):
+            ctx.say("HARNESS-FAILED (aborted-reload witness)", out[-2000:])
+            return 2
+        if g2.get("bit_before") == 0 and g2.get("live_len_after") == 0 and g2.get("bit_after") != 0:
+            key = "c16-aborted-reload-leaves-init-bits"
+            what = ("a reload aborted after NewControlPlane's group loop leaves the staged generation's init writes in the shared "
+                    "outbound_connectivity_map: live latency-policy set len=0, bit 0 -> %s after the staged group was built and its "
+                    "core closed, no node revived" % g2.get("bit_after"))
+            if any(k.get("key") == key and k.get("kind") == "open" for k in ctx.known):
+                ctx.report(what, {"witness": g2, "test": "TestVerifC16AbortedReload"}, key=key)
+            else:
+                ctx.say("NOTE (finding proposed, not yet listed in known_findings.jsonl as open `%s`): %s" % (key, what))
         for ln, op, im, mo in ctx.diff_streams(wops, wimpl, wmodel, "c16w", canon=konly)[:5]:
             ctx.report(f"NewControlPlane's group wiring (outbound id = position, dry-run unless dial_mode ip) differs from the "
                        f"proved model at line {ln} op `{op[:60]}`: real {konly(im)[:300]} model {konly(mo)[:300]}",
@@ -523,15 +604,17 @@ def run(ctx):
     ctx.samples = [l for l in op_lines if l.startswith(("probe", "tfail", "floor", "inherit", "group"))][:8]
     ctx.cov["input_distribution"] = c
     ctx.assumptions += [
-        "kernel-bit clause: the non-init callback writes only when the closure is built with dryrun=false, i.e. dial_mode: ip "
-        "(control_plane.go: disableKernelAliveCallback := dialMode != ip); NewControlPlane's wiring of that flag and of the "
-        "outbound ids is not executed by the check",
+        "kernel-bit clause: the non-init callback writes only when the closure is built with dryrun=false, i.e. dial_mode: ip; the "
+        "wiring region of NewControlPlane (dial-mode parse, that flag, outbound id = position, per-group clones, the alive-transition "
+        "registration loop) is executed verbatim (stream c16w); the rest of NewControlPlane, cmd/run.go's calls of "
+        "InheritDialerHealthFrom / MarkRetired, aliveBackground's probe table and the real DnsCheck are not executed",
         "histories are generated (seeded): 1-4 nodes per generation sharing 0-2 proxy addresses, 0-4 groups per generation "
         "(policies min_last/min_avg/min_moving/random/fixed), up to ~110 events per scenario, reload generations included",
     ]
     return ctx.finish(
         rule="one evaluation = one event line (probe/txn/tfail/forced/tok/suppress/tick/restore/inherit/floor/group/close) "
-             "whose complete resulting state (alive flags, both counters, transition callbacks, group callbacks, set "
-             "membership+best node, address table, suppression) is compared with the model; distinct_nontrivial = distinct "
+             "whose resulting state, projected onto what the property speaks about (alive flags, both counters of alive slots, "
+             "transition callbacks per slot, group callbacks, set membership + best-node presence, positive address counts, "
+             "suppression — see main_canon), is compared with the model; distinct_nontrivial = distinct "
              "(event kind, network type, attempt script, suppressed?, alive before/after, counter bucket) tuples seen",
         evaluations=len(op_lines) + n_k, distinct=c.get("distinct", 0))
